@@ -588,6 +588,11 @@ func exec(l *mc.Local, rc *rcase) {
 				rd.Decode(bmp, dh)
 			}
 		})
+		// Reset() is the documented call between uses of one reader object: every second read of the
+		// sequence is preceded by it (a reader configured by flags must keep its configuration)
+		if len(rc.Seq)%2 == 1 {
+			mc.Guard(func() { rd.Reset() })
+		}
 	}
 	var res *gozxing.Result
 	var rerr error
